@@ -2,6 +2,8 @@ import CLModel.Proto
 import CLModel.Paths.Filter
 import CLModel.Compare.MissingFilter
 import CLModel.Paths.FilterM
+import CLModel.Compare.FilterObserver
+import CLModel.Paths.FilterPy
 namespace Ops.C14
 open Proto Filt
 
@@ -186,17 +188,18 @@ def parseRawRuleM : List String → Option (FiltM.RawRuleM × List String)
   | _ => none
 
 /-- CFGM := C LOCS nenv (name value)* ROOT npaths (pattern LOCS)* nrules RAWRULEM* nchildren CFGM* nexcludes CFGM* -/
-partial def parseCfgM (u : Universe) : List String → Option (FiltM.ConfigM × List String)
+partial def parseCfgM (u : Universe) (toml : Bool := false) : List String → Option (FiltM.ConfigM × List String)
   | "C" :: rest => do
     let (locs, r1) ← parseLocs u rest
     let (env, r2) ← parseCounted parsePair r1
     let (root, r3) ← parseRootM r2
     let (paths, r4) ← parseCounted (parsePathEntryM u) r3
     let (raws, r5) ← parseCounted parseRawRuleM r4
-    let (children, r6) ← parseCounted (parseCfgM u) r5
-    let (excludes, r7) ← parseCounted (parseCfgM u) r6
-    -- cfg.add_rules(*raws) on a fresh configuration
-    pure (FiltM.ConfigM.mk locs env root paths (FiltM.addRulesM [] raws) children excludes, r7)
+    let (children, r6) ← parseCounted (parseCfgM u toml) r5
+    let (excludes, r7) ← parseCounted (parseCfgM u toml) r6
+    -- cfg.add_rules(*raws) on a fresh configuration; for a TOML file: TOMLParser.processFilters on its [[filters]]
+    let rules := if toml then FiltM.processFiltersM raws else FiltM.addRulesM [] raws
+    pure (FiltM.ConfigM.mk locs env root paths rules children excludes, r7)
   | _ => none
 
 def showPyErr : PM.PyErr → String
@@ -206,10 +209,10 @@ def showPyErr : PM.PyErr → String
 /-- c14.filterm UNIVERSE CFGM nq (li pi key|-)* -> one letter per query (a verdict, or the exception class);
     `B<letter>` when a `Matcher(...)` constructor raised while the configuration was built.
     The configuration is built once (`FiltM.filterM cfg f k = build cfg >>= (filterS · f k)`). -/
-def opFilterM (toks : List String) : String :=
+def opFilterM (toml : Bool) (toks : List String) : String :=
   match (do
     let (u, r1) ← parseUniverse toks
-    let (cfg, r2) ← parseCfgM u r1
+    let (cfg, r2) ← parseCfgM u toml r1
     let (qs, r3) ← parseCounted (parseQuery u) r2
     if r3.isEmpty then pure (cfg, qs) else none) with
   | some (cfg, qs) =>
@@ -221,6 +224,259 @@ def opFilterM (toks : List String) : String :=
         | .error e => showPyErr e))
   | none => "bad-args"
 
+/-! ### filter ∘ Observer ∘ ContentComparer at a quiet level (`c14.compareq`) -/
+section CompareQ
+open ObsM FiltObs
+
+def showTxtQ (t : Text) : String := "t" ++ ".".intercalate (t.map toString)
+
+def showRetQ : Ret → String
+  | .error => "e" | .warning => "w" | .ignore => "i"
+
+def showCatQ : Cat → String
+  | .error => "e" | .warning => "w" | .missingEntity => "me" | .obsoleteEntity => "oe"
+  | .missingFile => "mf" | .obsoleteFile => "of" | .other => "x"
+
+def showDetailQ (d : Detail) : String :=
+  showCatQ d.1 ++ ":" ++ (match d.2 with
+    | .ret r => "r" ++ showRetQ r
+    | .data .none => "d-"
+    | .data (.str t) => "d" ++ showTxtQ t
+    | .data (.tuple _) => "dT")
+
+/-- summary entry of the locale (the 11 counters in `Observer.__init__` order) and the error flag -/
+def showObsQ (o : ObsM.Obs) (loc : Option Text) : String :=
+  let sum := match o.summary.find? (·.1 == loc) with
+    | some p => ":".intercalate (StatKey.all.map (fun k => toString (p.2 k)))
+    | none => "-"
+  let dets := (TreeM.flatten o.details).flatMap (·.2)
+  sum ++ (if o.error then "!E" else "") ++ "[" ++ ",".intercalate (dets.map showDetailQ) ++ "]"
+
+def parseKeyEv : List String → Option (KeyEv × List String)
+  | "m" :: k :: w :: rest => do
+    let k ← parseText k
+    let w ← parseNat w
+    pure (.missing k w, rest)
+  | "o" :: k :: rest => (parseText k).map (fun k => (.obsolete k, rest))
+  | "j" :: m :: rest => (parseText m).map (fun m => (.refJunk m, rest))
+  | "J" :: m :: rest => (parseText m).map (fun m => (.l10nJunk m, rest))
+  | "n" :: c :: m :: rest => do
+    let c ← match c with | "e" => some Cat.error | "w" => some Cat.warning | _ => none
+    let m ← parseText m
+    pure (.note c m, rest)
+  | _ => none
+
+/-- c14.compareq UNIVERSE quiet nobs (CFG|"F")* li pi FILE nev EV* changed changed_w unchanged unchanged_w keys
+    `ContentComparer(quiet)` with `Observer(quiet, filter=cfg.filter)` per CFG (`F`: `Observer(quiet)`), the key
+    loop over the events and `updateStats`.  Result: counters, merged keys (indices into the missing events),
+    the verdicts returned by `notify`, then summary/error flag/details of the list and of every observer. -/
+def opCompareQ (toks : List String) : String :=
+  match (do
+    let (u, r1) ← parseUniverse toks
+    match r1 with
+    | q :: r1' => do
+      let q ← parseNat q
+      let (cfgs, r2) ← parseCounted (parseObsCfg u) r1'
+      match r2 with
+      | li :: pi :: fl :: r3 => do
+        let li ← parseNat li
+        let pi ← parseNat pi
+        let loc ← u.locales[li]?
+        let fp ← u.paths[pi]?
+        let fl ← parseText fl
+        let (evs, r4) ← parseCounted parseKeyEv r3
+        match r4 with
+        | [a, b, c, d, e] => do
+          let a ← parseNat a; let b ← parseNat b; let c ← parseNat c; let d ← parseNat d; let e ← parseNat e
+          pure (q, cfgs, loc, fp, fl, evs, (⟨a, b, c, d, e⟩ : BothCounts))
+        | _ => none
+      | _ => none
+    | [] => none) with
+  | some (q, cfgs, loc, fp, fl, evs, b) =>
+    let file : ObsM.File := ⟨fl, none, some loc⟩
+    let flts : List (Option Filter) := cfgs.map (fun c => c.map (fun cfg => projectFilter cfg (fun _ => fp)))
+    match compareQ (fresh q flts) file evs b with
+    | .ok (l, acc) =>
+      let mkeys := evs.filterMap (fun e => match e with | .missing k _ => some k | _ => none)
+      s!"ok m={acc.missing} mw={acc.missingW} r={acc.report} o={acc.obsolete} M={showIdx mkeys acc.missings} " ++
+      s!"V={String.join (acc.rvs.map showRetQ)} own={showObsQ l.own (some loc)} " ++
+      s!"obs={"|".intercalate (l.observers.map (fun o => showObsQ o (some loc)))}"
+    | .error e => "raise " ++ e.name
+  | none => "bad-args"
+
+/-- c14.filesq UNIVERSE quiet nobs (CFG|"F")* li pi FILE n w
+    `ContentComparer(quiet).add(ref, missing_file, …)` and, on fresh observers, `.remove(ref, file, …)`:
+    the verdicts `notify` returned and summary / error flag / details of the list and of every observer -/
+def opFilesQ (toks : List String) : String :=
+  match (do
+    let (u, r1) ← parseUniverse toks
+    match r1 with
+    | q :: r1' => do
+      let q ← parseNat q
+      let (cfgs, r2) ← parseCounted (parseObsCfg u) r1'
+      match r2 with
+      | [li, pi, fl, n, w] => do
+        let li ← parseNat li
+        let pi ← parseNat pi
+        let loc ← u.locales[li]?
+        let fp ← u.paths[pi]?
+        let fl ← parseText fl
+        let n ← parseNat n
+        let w ← parseNat w
+        pure (q, cfgs, loc, fp, fl, n, w)
+      | _ => none
+    | [] => none) with
+  | some (q, cfgs, loc, fp, fl, n, w) =>
+    let file : ObsM.File := ⟨fl, none, some loc⟩
+    let flts : List (Option Filter) := cfgs.map (fun c => c.map (fun cfg => projectFilter cfg (fun _ => fp)))
+    let show1 (r : Except TreeM.PyErr (ObsList × Ret)) : String := match r with
+      | .ok (l, rv) => s!"{showRetQ rv} own={showObsQ l.own (some loc)} obs={"|".intercalate (l.observers.map (fun o => showObsQ o (some loc)))}"
+      | .error e => "raise " ++ e.name
+    "add " ++ show1 (addFileQ (fresh q flts) file n w) ++ " remove " ++ show1 (removeFileQ (fresh q flts) file)
+  | none => "bad-args"
+
+end CompareQ
+
+/-- c14.keytext KEY RE : `KEY` a rule key as written, `RE` the translation of `rule["key"].pattern` of the rule the
+    real `_compile_rule` yields for it.  Result: the pattern text the model says is compiled, the branch taken, and
+    for the literal branch whether `RE` is `escapedDollar KEY`; then the answers of the compiled key for the probe
+    entities that follow (`n e1 … en`), computed from `compileKey` with `RE` as the compiled expression. -/
+def opKeyText (toks : List String) : String :=
+  match (do
+    let (k, r1) ← parseRawKey toks
+    let (ents, r2) ← parseTexts r1
+    if r2.isEmpty then pure (k, ents) else none) with
+  | some (k, ents) =>
+    let isRe := Gen.Tables.ruleKeyRePrefix.isPrefixOf k.text
+    let shape := if isRe then "re" else (if litDollarText k.compiled == some k.text then "lit=1" else "lit=0")
+    let pred := compileKey k
+    showText (compiledKeyText k.text) ++ " " ++ shape ++ " " ++
+      String.join (ents.map (fun e => if pred.matches e then "1" else "0"))
+  | none => "bad-args"
+
+/-! ### legacy filter.py, the guards of the object graph, set_locales(deep) (`c14.filterp`) -/
+section FilterPyOp
+open FiltP
+
+/-- one clause of a generated `filter.py` test function: conditions on module / path / entity, and the outcome -/
+structure PyClause where
+  module : Option (Option Text)      -- none = any; some none = `module is None`; some (some m) = `module == m`
+  pathSub : Text                     -- `sub in path` (the empty text is in every path)
+  entity : Option (Option (Option Text))   -- none = any; some none = `entity is not None`; some (some e) = `entity == e` (e none: `is None`)
+  out : PyOut
+
+def isInfix (sub t : Text) : Bool := (List.range (t.length + 1)).any (fun i => sub.isPrefixOf (t.drop i))
+
+def PyClause.holds (c : PyClause) (m : Option Text) (p : Text) (e : Option Text) : Bool :=
+  (match c.module with | none => true | some m' => m == m') && isInfix c.pathSub p &&
+  (match c.entity with | none => true | some none => e.isSome | some (some e') => e == e')
+
+/-- the generated function: the first clause that holds decides, else the default -/
+def tablePy (dflt : PyOut) (cs : List PyClause) : PyFilter := fun m p e =>
+  match cs.find? (fun c => c.holds m p e) with
+  | some c => c.out
+  | none => dflt
+
+def parsePyOut : List String → Option (PyOut × List String)
+  | "R" :: r => some (.raised, r) | "T" :: r => some (.bool true, r) | "F" :: r => some (.bool false, r)
+  | "N" :: r => some (.none, r) | "U" :: r => some (.unhashable, r) | "O" :: r => some (.other, r)
+  | "s" :: t :: r => (parseText t).map (fun t => (.str t, r))
+  | _ => none
+
+def parsePyClause : List String → Option (PyClause × List String)
+  | m :: p :: e :: rest => do
+    let m ← if m == "*" then pure none else if m == "-" then pure (some none) else (parseText m).map (fun x => some (some x))
+    let p ← parseText p
+    let e ← if e == "*" then pure none else if e == "+" then pure (some none) else if e == "-" then pure (some (some none))
+            else (parseText e).map (fun x => some (some (some x)))
+    let (o, r) ← parsePyOut rest
+    pure (⟨m, p, e, o⟩, r)
+  | _ => none
+
+/-- a configuration as the harness builds it, step by step -/
+inductive SpecP where
+  | mk (locales : Option (List Text)) (paths : List PathEntry) (order : List Char) (raws : List RawRule)
+       (py : Option PyFilter) (children : List SpecP) (excludes : List SpecP)
+
+partial def parseSpecP (u : Universe) : List String → Option (SpecP × List String)
+  | "P" :: rest => do
+    let (locs, r1) ← parseLocs u rest
+    let (paths, r2) ← parseCounted (parsePathEntry u) r1
+    match r2 with
+    | order :: r3 => do
+      let (raws, r4) ← parseCounted (parseRawRule u) r3
+      let (py, r5) ← match r4 with
+        | "-" :: r => some (none, r)
+        | "Y" :: r => do
+          let (d, r') ← parsePyOut r
+          let (cs, r'') ← parseCounted parsePyClause r'
+          pure (some (tablePy d cs), r'')
+        | _ => none
+      let (children, r6) ← parseCounted (parseSpecP u) r5
+      let (excludes, r7) ← parseCounted (parseSpecP u) r6
+      pure (SpecP.mk locs paths (order.toList.filter (· != '.')) raws py children excludes, r7)
+    | [] => none
+  | _ => none
+
+/-- the construction sequence of the harness (`impl/project.py build_p`): `set_locales`, `add_paths`, then
+    `add_rules(*rules)` / `set_filter_py(f)` in the given order, `add_child(build(c))` for the included and
+    `exclude(build(e))` for the excluded configurations -/
+partial def buildP : SpecP → Except PyErr ConfigP
+  | .mk locales paths order raws py children excludes => do
+    let c := addPathsP (setLocalesShallow ConfigP.empty locales) paths
+    let c ← order.foldlM (fun c step =>
+      if step == 'r' then addRulesP c raws
+      else match py with
+        | some f => setFilterPy c f
+        | none => pure c) c
+    let c ← children.foldlM (fun c ch => do addChild c (← buildP ch)) c
+    excludes.foldlM (fun c ex => do excludeP c (← buildP ex)) c
+
+def showPyErrP : PyErr → String
+  | .assertion => "A" | .typeError => "T" | .excludeError => "E" | .unmodelled => "?"
+
+def parsePost (u : Universe) : List String → Option ((Bool × Option (List Text)) × List String)
+  | "D" :: r => (parseLocs u r).map (fun (l, r') => ((true, l), r'))
+  | "S" :: r => (parseLocs u r).map (fun (l, r') => ((false, l), r'))
+  | _ => none
+
+def parseQueryP (u : Universe) : List String → Option ((FileP × Option Text) × List String)
+  | li :: pi :: m :: fl :: k :: rest => do
+    let li ← parseNat li
+    let pi ← parseNat pi
+    let loc ← u.locales[li]?
+    let fp ← u.paths[pi]?
+    let m ← if m == "-" then pure none else (parseText m).map some
+    let fl ← parseText fl
+    let key ← if k == "-" then pure none else (parseText k).map some
+    pure ((⟨fp, loc, m, fl⟩, key), rest)
+  | _ => none
+
+/-- c14.filterp UNIVERSE SPECP npost (D|S LOCS)* nq (li pi module|- file key|-)*  -> one letter per query:
+    e / w / i, `N` for `None`, `A` AssertionError, `T` TypeError; `B<letter>` when building the objects raised -/
+def opFilterP (toks : List String) : String :=
+  match (do
+    let (u, r1) ← parseUniverse toks
+    let (spec, r2) ← parseSpecP u r1
+    let (posts, r3) ← parseCounted (parsePost u) r2
+    let (qs, r4) ← parseCounted (parseQueryP u) r3
+    if r4.isEmpty then pure (spec, posts, qs) else none) with
+  | some (spec, posts, qs) =>
+    match buildP spec with
+    | .error e => "B" ++ showPyErrP e
+    | .ok cfg =>
+      let cfg := posts.foldl (fun c (deep, ls) => if deep then setLocalesDeep c ls else setLocalesShallow c ls) cfg
+      String.join (qs.map (fun (f, k) =>
+        match filterP cfg f k with
+        | .ok (some a) => showAction a
+        | .ok none => "N"
+        | .error e => showPyErrP e))
+  | none => "bad-args"
+
+end FilterPyOp
+
 def ops : List (String × (List String → String)) :=
-  [("c14.filter", opFilter), ("c14.compare", opCompare), ("c14.filterm", opFilterM)]
+  [("c14.filter", opFilter), ("c14.compare", opCompare), ("c14.filterm", opFilterM false), ("c14.compareq", opCompareQ), ("c14.filesq", opFilesQ),
+   -- the same composed model, the rules being what `TOMLParser.processFilters` makes of the `[[filters]]` tables
+   ("c14.filtert", opFilterM true), ("c14.keytext", opKeyText), ("c14.filterp", opFilterP)]
 end Ops.C14
